@@ -16,6 +16,6 @@ CONSTANTS
 INIT InitSeeded
 NEXT Next
 VIEW View0
-INVARIANTS TypeOK MemoAll WarmIsBip9 ColdAll CacheSound SamePeriod Absorbing Diagram DefinedUntilStart StartedStep LockedInStep AlwaysNever StatsAgree
+INVARIANTS TypeOK MemoAll ShiftAll WarmIsBip9 ColdAll CacheSound SamePeriod Absorbing Diagram DefinedUntilStart StartedStep LockedInStep AlwaysNever StatsAgree
 ACTION_CONSTRAINT Emit
 CHECK_DEADLOCK FALSE
